@@ -109,13 +109,13 @@ theorem C05_ttl_retains (max ttl now : Int) (hm : 1 ≤ max) (ht : 0 ≤ ttl) (k
 /-! ## 3a. T1 stage cache: the repaired key is sufficient -/
 
 /-- The key determines the effective caps, the seeds and (through a faithful etag) the graph. -/
-theorem C05_t1_key_sufficient {E V : Type} (etagOf : Nat → E) (hinj : Function.Injective etagOf)
+theorem C05_t1_key_sufficient {E V : Type} (etagOf : Nat → E) (hinj : EtagFaithful etagOf)
     (seedsOf : Nat → Nat → List Nat) (compute : Nat → T1Eff → List Nat → V) :
     Sufficient (t1Key etagOf seedsOf) (t1Stage seedsOf compute) := by
   intro r r' h
   simp only [t1Key, T1Key.mk.injEq] at h
   obtain ⟨_, he, heff, hseeds⟩ := h
-  have hg : r.graph = r'.graph := hinj he
+  have hg : r.graph = r'.graph := hinj _ _ he
   show compute r.graph (t1Eff r) (seedsOf r.graph r.text) = compute r'.graph (t1Eff r') (seedsOf r'.graph r'.text)
   rw [hseeds, heff, hg]
 
@@ -124,10 +124,19 @@ example (seedsOf : Nat → Nat → List Nat) (compute : Nat → T1Eff → List N
     Sufficient (t1Key id seedsOf) (t1Stage seedsOf compute) :=
   C05_t1_key_sufficient id (fun _ _ h => h) seedsOf compute
 
+/-- The order-preserving digest is faithful on the ordered adjacency … -/
+theorem C05_ordered_digest_faithful (g g' : OEdges) (h : digestOrdered g = digestOrdered g') : g = g' := h
+
+/-- … a sorted-id ("canonical, independent of upsert order") digest is NOT: same digest, different propagation
+result under `relax_cap = 1` (a→b then a→c reaches {a,b}; a→c then a→b reaches {a,c}). -/
+theorem C05_sorted_digest_not_faithful :
+    ∃ g g' : OEdges, digestSorted g = digestSorted g' ∧ reachCapped 1 g 0 ≠ reachCapped 1 g' 0 :=
+  ⟨ogOf 0, ogOf 1, by decide, by decide⟩
+
 /-- Consequence: the T1 stage behind ANY of the code's containers is transparent over every history
 (several states in one process included: the graph content, not the state, is what the key identifies). -/
 theorem C05_t1_transparent {σ E V : Type} (C : CacheSem σ (T1Key E) V) (etagOf : Nat → E)
-    (hinj : Function.Injective etagOf) (seedsOf : Nat → Nat → List Nat) (compute : Nat → T1Eff → List Nat → V)
+    (hinj : EtagFaithful etagOf) (seedsOf : Nat → Nat → List Nat) (compute : Nat → T1Eff → List Nat → V)
     (es : List (Ev T1Raw)) (s : σ) (hg : Good C (t1Key etagOf seedsOf) (t1Stage seedsOf compute) s) :
     runCached C (t1Key etagOf seedsOf) (t1Stage seedsOf compute) s es = runUncached (t1Stage seedsOf compute) es :=
   transparent_of_sufficient C _ _ (C05_t1_key_sufficient etagOf hinj seedsOf compute) es s hg
@@ -154,6 +163,14 @@ theorem C05_t1_counts_etag_insufficient :
     ∃ r r' : T1Raw, t1Key (fun _ => (4, 2)) (fun _ _ => [1]) r = t1Key (fun _ => (4, 2)) (fun _ _ => [1]) r' ∧
       t1Stage (fun _ _ => [1]) (fun g _ _ => g) r ≠ t1Stage (fun _ _ => [1]) (fun g _ _ => g) r' :=
   ⟨t1Sample, { t1Sample with graph := 8 }, by decide, by decide⟩
+
+/-- The same witness at the level of the T1 key: with an order-insensitive etag two states whose stores hold the
+same nodes and edges inserted in different orders share a key while the stage result differs. -/
+theorem C05_t1_order_insensitive_etag_insufficient :
+    ∃ r r' : T1Raw, t1Key (fun c => digestSorted (ogOf c)) (fun _ _ => [0]) r = t1Key (fun c => digestSorted (ogOf c)) (fun _ _ => [0]) r' ∧
+      t1Stage (fun _ _ => [0]) (fun g e _ => reachCapped (e.relaxCap.getD 0).toNat (ogOf g) 0) r ≠
+      t1Stage (fun _ _ => [0]) (fun g e _ => reachCapped (e.relaxCap.getD 0).toNat (ogOf g) 0) r' :=
+  ⟨{ t1Sample with graph := 0, relaxCap := some 1 }, { t1Sample with graph := 1, relaxCap := some 1 }, by decide, by decide⟩
 
 /-- (history of the defect) Without `perf_enabled` in `policy_caps` the key ignored whether the perf caps act. -/
 theorem C05_t1_legacy_key_ignores_perf :
